@@ -27,7 +27,7 @@ def one(sid, checks=None):
             p = subprocess.run(["python3", "/verif/tools/check.py", c, "--tier", "quick"], capture_output=True, text=True, env=env, cwd="/verif")
             verdict = {0: "held", 1: "VIOLATION", 2: "infra-error"}.get(p.returncode, str(p.returncode))
             keys = [l.strip()[:260] for l in p.stderr.splitlines() if l.strip().startswith("violation [")][:3]
-            rec[c] = {"verdict": verdict, "wall_s": round(time.time() - t0, 1), "keys": keys, "err": p.stderr[-600:] if verdict == "infra-error" else "",
+            rec[c] = {"verdict": verdict, "wall_s": round(time.time() - t0, 1), "keys": keys, "err": p.stderr[-600:] if verdict == "infra-error" else "", "seed": os.environ.get("VERIF_SEED", "default"),
                       "head_of_verif": subprocess.run(["git", "-C", "/verif", "rev-parse", "--short", "HEAD"], capture_output=True, text=True).stdout.strip()}
         json.dump(meta, open(d + "/meta.json", "w"), indent=1)
         return sid, {c: rec[c]["verdict"] for c in checks}
